@@ -267,6 +267,9 @@ class SourceEval:
         self.analysis = analysis     # K2A/A2K/DC are leaves of their own rate
         self.perturb = perturb       # nodes whose value is re-drawn (liveness)
         self.max_local_bufs = None
+        # analysis only: units that read a signal above their own rate are
+        # rate barriers (their output never runs faster than the unit)
+        self.barriers = set()
         self.vals = []
         self.units = []
         self.ops = []
@@ -417,11 +420,13 @@ class SourceEval:
                 ins = ins[:2] + [r.const(len(ins) - 2)] + ins[2:]
             if ent['eff'] == 'conv':
                 if self.analysis:
-                    if cls == 'A2K':
+                    if cls == 'A2K' or i in self.barriers:
                         # rate barrier: a control-rate leaf whatever it reads
                         ins = [('node', i)]
                     return r.out(r.unit_sig(cls, rate, 0, 1, ins), 0)
                 return ins[0]
+            if self.analysis and i in self.barriers:
+                ins = [('node', i)]
             u = self._unit(i, cls, rate, 0, nout, ins, nd.get('tag'))
             if ent.get('multi'):
                 return [r.out(u['sig'], c) for c in range(nout)]
@@ -746,6 +751,11 @@ class Gen:
             if o[0] == 'n':
                 self.uses[o[1]] += 1
         self.uses.append(0)
+        if nd['k'] == 'ugen' and nd.get('m') in RATE_NUM and any(
+                self.oinfo(o).hi > RATE_NUM[nd['m']] for o in operands_of(nd)
+                if o[0] == 'n'):
+            for ev in self.evs:
+                ev.barriers.add(i)
         vals = []
         for ev in self.evs:
             try:
@@ -1824,6 +1834,15 @@ def without_failed_wraps(program):
         if nd['k'] == 'wrapfail':
             q['nodes'][i] = {'k': 'alias', 'a': nd['fallback']}
     return q
+
+
+def tag_belongs_to(node, unit_cls):
+    """a tag constant found among the inputs of a unit identifies the unit
+    only when it is the unit's own tag (the same constant can reach another
+    unit as an ordinary operand)"""
+    if node.get('cls') is not None:
+        return node['cls'] == unit_cls
+    return node['k'] in ('bin', 'un', 'madd', 'sumn') and unit_cls in ARITH_CLASSES
 
 
 def tag_creation_order(program):
